@@ -213,11 +213,30 @@ def value_problems(c, o):
     return bad
 
 
+SORTS_A_SELECTION = ["ExecuteSelectedRules", "ExecuteSelectedRulesWithControl", "ExecuteSelectedRulesWithControlAndStopTag", "ExecuteSelectedRulesMixModel",
+                     "ExecuteSelectedRulesInverseMixModel", "ExecuteSelectedNSortMConcurrent", "ExecuteSelectedNConcurrentMSort", "ExecuteSelectedNConcurrentMConcurrent"]
+
+
+def detie(c):
+    """Entry points that re-sort a SELECTION: the property fixes the order only up to ties (any order among equal
+    saliences is a correct run), while the model predicts Go's stable order. To never alarm on a correct tie order the
+    correspondence cases for these entry points use pairwise distinct saliences (ties stay covered by the theorems and,
+    for the unselected models, by the observed installed order)."""
+    if c["entry"] not in SORTS_A_SELECTION:
+        return
+    seen = set()
+    for r in sorted(c["rules"], key=lambda r: -r["sal"]):
+        while r["sal"] in seen:
+            r["sal"] -= 1
+        seen.add(r["sal"])
+
+
 def campaign(run, pid, cases, entries, design_rule, extra_obligations=()):
     """Common flow of the engine-family checks."""
     for i, c in enumerate(cases):
         c["id"] = i
         c.setdefault("via", "engine")
+        detie(c)
         c.setdefault("quiet_ms", 25 if run.tier == "quick" else 80)
     run.log("running %d calls on the implementation (%d with a held rule)" % (len(cases), sum(1 for c in cases if c["hold"])))
     obs = run_sharded(cases)
